@@ -198,8 +198,15 @@ def _histories(rec, acct, TdmsFile, path, data, ex, d, valid):
     sources.append(('bytesio', lambda: bio, bio))
     fobj = open(path, 'rb')
     sources.append(('fileobj', lambda: fobj, fobj))
+    rawobj = open(path, 'rb', buffering=0)          # an unbuffered (raw) file object supplied by the caller
+    sources.append(('raw_fileobj', lambda: rawobj, rawobj))
+    if os.path.exists(path + '_index'):
+        # the .tdms_index file itself given as the path to read (metadata only; data reads are refused)
+        sources.append(('index_path', lambda: path + '_index', None))
+    full_ex = ex
     try:
         for sname, src, stream in sources:
+            ex = None if sname == 'index_path' else full_ex
             # ---- read / read_metadata: after return or raise nothing stays open
             for api in ('read', 'read_metadata'):
                 before = open_fds(d)
@@ -226,6 +233,10 @@ def _histories(rec, acct, TdmsFile, path, data, ex, d, valid):
                     except Exception as e:      # noqa
                         rec.violation('close_repeat:raised', 'close() after %s: %s' % (api, describe_exc(e)), key=exc_key(e))
                 del tf, err
+                if stream is not None and stream.closed:
+                    rec.violation('caller_stream_closed', '%s(%s): the caller\'s stream was closed once the result / exception '
+                                  'of the call was released' % (api, sname))
+                    return
             # ---- with TdmsFile.open(...)
             before = open_fds(d)
             if stream is not None:
@@ -309,6 +320,11 @@ def _histories(rec, acct, TdmsFile, path, data, ex, d, valid):
             rec.violation('caller_stream_closed', 'the caller\'s file object was closed by the library')
         else:
             fobj.close()
+        if rawobj.closed:
+            rec.violation('caller_stream_closed', 'the caller\'s unbuffered file object was closed by the library (possibly '
+                          'when an exception it raised was released)')
+        else:
+            rawobj.close()
         if bio.closed:
             rec.violation('caller_stream_closed', 'the caller\'s BytesIO was closed by the library')
 
